@@ -235,10 +235,12 @@ class BaseProperty(base.BaseObject):
         if self.name == new_name:
             return
 
-        # Make sure name cannot be set to None or empty
+        # Make sure name cannot be set to None or empty; the id used instead
+        # has to pass the sibling check as well.
         if not new_name:
-            self._name = self._id
-            return
+            new_name = self._id
+            if self.name == new_name:
+                return
 
         curr_parent = self.parent
         if hasattr(curr_parent, "properties") and new_name in curr_parent.properties:
